@@ -101,18 +101,6 @@ fn apply(sh: &Shared) {
     }
 }
 
-/// ShmWrite wrapper: the real writer, then tell the coordinator that the publication is done.
-struct Notify {
-    w: ShmWriter,
-    tx: Sender<()>,
-}
-impl ShmWrite for Notify {
-    fn write(&mut self, ceb: &ClockErrorBound) {
-        self.w.write(ceb);
-        let _ = self.tx.send(());
-    }
-}
-
 struct Daemon {
     dbox: clock_bound_d::channels::DispatchBox<ChannelId, Message>,
     poller: std::thread::JoinHandle<()>,
@@ -128,12 +116,27 @@ fn start_daemon(path: &std::path::Path, drift: u32, phc_info: Option<PhcInfo>, p
     let pctx = Context { mbox: pmbox, dbox: dbox.clone(), channel_id: ChannelId::ClockErrorBoundPoller };
     let wctx = Context { mbox: wmbox, dbox: dbox.clone(), channel_id: ChannelId::ShmWriter };
     let w = ShmWriter::new(path).expect("ShmWriter::new");
-    struct SendW(Notify);
+    // The updater owns the real writer (no wrapper: whatever it asks of its writer reaches the real one).
+    // The coordinator learns of a publication from the shim's controller on the writer thread, which
+    // performs the closing (even) generation store itself and then tells it.
+    struct SendW(ShmWriter);
     unsafe impl Send for SendW {}
-    let nw = SendW(Notify { w, tx: pub_tx });
+    let nw = SendW(w);
     let writer = std::thread::spawn(move || {
         let nw = nw;
+        let tx = pub_tx;
+        clock_bound_shm::verif::install(Some(Box::new(move |a: &clock_bound_shm::verif::Access| {
+            if let clock_bound_shm::verif::Access::Store16 { addr, ord, val } = a {
+                if *val != 0 && *val % 2 == 0 {
+                    unsafe { (*(*addr as *const std::sync::atomic::AtomicU16)).store(*val, *ord) };
+                    let _ = tx.send(());
+                    return clock_bound_shm::verif::Reply::Skip;
+                }
+            }
+            clock_bound_shm::verif::Reply::Pass
+        })));
         wverif::run_updater(wctx, nw.0, drift);
+        clock_bound_shm::verif::install(None);
     });
     let poller = std::thread::spawn(move || {
         pverif::run_poller(pctx, phc_info, Duration::from_secs(1_000_000_000)); // woken by messages only: virtual time jumps must not end the wait
